@@ -33,7 +33,7 @@ FLOOR = {"quick": 15, "thorough": 20}
 def parts(tier):
     if tier == "quick":
         return [{"name": "table", "n": 6000}, {"name": "e2e", "n": 160}]
-    return [{"name": "table", "n": 200000}, {"name": "e2e", "n": 3000}]
+    return [{"name": "table", "n": 80000}, {"name": "e2e", "n": 2400}]
 
 
 MODEL = boot.model_case(with_calls=True)
